@@ -42,9 +42,36 @@ let eval_line sub k =
     let outs = pairs k in let pars = pairs k in let tags = pairs k in
     let prepend = if more k then str k else [] in
     let e = { e_in = ins; e_sub = subs; e_out = outs; e_par = pars; e_tag = tags } in
+    if not (pattern_ok cmd) then "<FAIL>" else
     (match format_command cmd e with
      | Ok s -> hexl (if prepend = [] then s else prepend @ (to_l " ") @ s)
      | Fail -> "<FAIL>")
+  | "pathfmt" ->
+    let _pat = str k in let _oport = str k in let ppat = str k in
+    let ins = pairs k in let pars = pairs k in let tags = pairs k in
+    (match expand ppat ins pars tags with Ok r -> hexl r | Fail -> "<FAIL>")
+  | "defpath" ->
+    let name = str k in let pat = str k in
+    let ins = pairs k in let pars = pairs k in let tags = pairs k in
+    let infos = port_infos pat in
+    let ports = List.sort compare (List.filter_map (fun (n, pi) -> let ty = of_l pi.ptype in if ty = "o" || ty = "os" then Some (of_l n) else None) infos) in
+    string_of_int (List.length ports) ^ " " ^ String.concat " " (List.concat_map (fun o -> [hex o; hexl (default_path name pat (to_l o) ins pars tags)]) ports)
+  | "mods" ->
+    let path = str k in let mods = strs k in hexl (apply_mods path mods)
+  | "ports" ->
+    let pat = str k in
+    if not (pattern_ok pat) then "<FAIL>" else
+    let infos = port_infos pat in
+    let sel f = List.sort compare (List.filter_map (fun (n, pi) -> if f (of_l pi.ptype) then Some (of_l n) else None) infos) in
+    let show tag l = tag ^ " " ^ string_of_int (List.length l) ^ String.concat "" (List.map (fun n -> " " ^ hex n) l) in
+    String.concat " " [show "I" (sel (fun t -> t = "i")); show "O" (sel (fun t -> t = "o" || t = "os")); show "P" (sel (fun t -> t = "p"))]
+  | "paths" ->
+    let path = str k in
+    if not (path_valid path) then "INVALID" else
+    let tp = temp_path path in
+    let pcs = split_all path in
+    String.concat " " (["OK"; hexl tp; hexl (Model.dir tp); hexl (path @ to_l ".fifo"); hexl (Model.replace_all (to_l "__parent__") (to_l "../") path); string_of_int (List.length pcs)] @ List.map hexl pcs)
+  | "sanitize" -> hexl (sanitize (str k))
   | _ -> failwith ("unknown subcommand " ^ sub)
 
 
